@@ -55,7 +55,10 @@ def species(draw):
         f = draw(st.integers(1, 5))
         n, mul = c * f, [c, f]
     if kind == "DT":
-        return {"t": "s", "el": draw(st.sampled_from(["D", "T"])), "A": None, "q": None, "qs": "", "n": n, "mul": mul}
+        # D and T are H{2} and H{3}; a suffix that holds a charge only (D{-}, T{+1}) is the charge of that isotope
+        q = draw(st.sampled_from([None, None, -1, 1]))
+        return {"t": "s", "el": draw(st.sampled_from(["D", "T"])), "A": None, "q": q,
+                "qs": "" if q is None else draw(st.sampled_from(["num", "sign"])), "n": n, "mul": mul}
     if kind == "nucleon":
         return {"t": "s", "el": draw(st.sampled_from(["[p]", "[n]", "[e]"])), "A": None, "q": None, "qs": "", "n": n, "mul": mul}
     el = draw(st.one_of(st.sampled_from(COMMON), st.sampled_from(ELEMENTS)))
